@@ -15,7 +15,8 @@ META = {
                    "applied iff the share still holds the surveyed version; a refused write changes nothing and marks the writer surprised, "
                    "permanently; with (writers+1)*k <= N some version occupies >= k share numbers in every reachable state; and at trace level "
                    "(ghost dirty sets, invariant over all interleavings of writers that survey once per publish) an applied write never lands on a "
-                   "share another writer replaced since the survey.  The cell semantics "
+                   "share another writer replaced since the survey, hence "
+                   "two overlapping publishes that write a common share are never both unsurprised.  The cell semantics "
                    "are compared with the real StorageServer.slot_testv_and_readv_and_writev on random and exhaustive interleavings; real "
                    "concurrent publishes by several clients are run on a grid with the property's rules as oracle."),
     "level_note": ("core (partial): a common placement (one slot per share number) and atomic per-share writes are modelling assumptions; the "
@@ -115,6 +116,16 @@ def one_case(ctx, idx, ncells, nwriters, events, terms, info, k=None):
                 counts[v] = counts.get(v, 0) + 1
             if max(counts.values()) < kk:
                 ctx.oracle_fail("no-version-holds-k-shares", "with %d writers on %d shares no version holds %d shares: %r" % (nwriters, ncells, kk, cells), case=case)
+    # oracle (overlapping_publishes_detected on the real server): two writers that had both surveyed before either of
+    # them wrote share i, and that both wrote share i, are not both unsurprised at the end
+    pos_s = {e[1]: t for t, e in enumerate(events) if e[0] == "S"}
+    pos_w = {(e[1], e[2]): t for t, e in enumerate(events) if e[0] == "W" and e[2] < ncells}
+    for (j, i), tj in pos_w.items():
+        for o in range(nwriters):
+            if o != j and (o, i) in pos_w and j in pos_s and o in pos_s and max(pos_s[j], pos_s[o]) < min(tj, pos_w[(o, i)]):
+                if not surprised[j] and not surprised[o]:
+                    ctx.oracle_fail("overlap-undetected", "writers %d and %d both wrote share %d after both had surveyed, and neither was "
+                                    "told about the other" % (j, o, i), case=case)
     if any(v not in range(0, nwriters + 1) for v in cells):
         ctx.oracle_fail("share-holds-unpublished-version", "a share holds a value nobody wrote: %r" % (cells,), case=case)
     terms.append("(let s := run %s %s %s in list_eqb (cells s) %s && all2 Bool.eqb (map w_surprised (ws s)) %s && all2 nat_list_eqb (map acked (ws s)) %s)" % (
